@@ -1,6 +1,37 @@
-From Coq Require Import List String.
-From GinV Require Import Model.Values Model.Gin.
+(* C03 — statements are recovered exactly, whatever the layout of the config text.
+   Proved so far: strictness of scoped names and the key splitting.  The full statement round-trip over
+   all layouts is NOT yet proved (it is carried by the correspondence engine parser-stmts); hence the
+   level claimed for C03 is translation validation. *)
+From Coq Require Import List String ZArith Bool Arith.
+From GinV Require Import Lib.Out Lib.PyStr Model.Parser Model.ParserSpec Proofs.ParserSmall.
 Import ListNotations.
-Theorem C03_placeholder : prefixes [1;2] = [[]; [1]; [1;2]].
-Proof. reflexivity. Qed.
-Print Assumptions C03_placeholder.
+Open Scope string_scope.
+Open Scope list_scope.
+
+(* an accepted scoped name is spelled by adjacent tokens and matches the pattern: never repaired *)
+Theorem C03_selector_strict : forall scoped allow wb ts s rest,
+  parse_selector scoped allow wb ts = POk (s, rest) ->
+  selector_format_ok scoped allow s = true /\
+  exists toks, contiguous toks = true /\ s = concat_strs (map text toks) /\ toks <> [] /\ (forall t, In t toks -> In t ts).
+Proof. exact selector_strict. Qed.
+
+(* a separator that does not touch the preceding name (inner blank, other line) is never accepted *)
+Theorem C03_selector_rejects_gap : forall scoped allow wb t1 t2 r,
+  ty t1 = NAME -> (text t2 = "/" \/ text t2 = ".") -> ty t2 = OP ->
+  (srow t1 <> srow t2 \/ ecol t1 <> scol t2) ->
+  forall x, parse_selector scoped allow wb (t1 :: t2 :: r) = POk x -> False.
+Proof. exact selector_rejects_gap. Qed.
+
+(* binding-key splitting inverts joining: scope = everything before the last '/', parameter = after the last '.' *)
+Theorem C03_split_binding_key : forall scope sel arg,
+  contains_char slash sel = false -> contains_char slash arg = false -> contains_char dot arg = false ->
+  split_binding_key ((if String.eqb scope "" then "" else scope ++ "/") ++ sel ++ "." ++ arg)%string = (scope, sel, arg).
+Proof. exact split_binding_key_spec_strong. Qed.
+Theorem C03_split_scoped : forall scope sel, contains_char slash sel = false -> scope <> "" ->
+  split_scoped (scope ++ "/" ++ sel)%string = (scope, sel).
+Proof. exact split_scoped_spec. Qed.
+
+Print Assumptions C03_selector_strict.
+Print Assumptions C03_selector_rejects_gap.
+Print Assumptions C03_split_binding_key.
+Print Assumptions C03_split_scoped.
